@@ -702,36 +702,37 @@ def c14(ctx):
     binary = build()
     mc = Bg(lambda: model_check(ctx, "MC_OrderBy", workers=2, timeout=600))
     tr = os.path.join(ctx.traces, "orderby.ndjson")
-    n = 1200 if ctx.quick() else 20000
+    n = 1200 if ctx.quick() else 12000
     sv(binary, ["sparql", "--mode", "c14", "--n", n, "--seed", ctx.seed, "--out", tr], ctx=ctx)
-    trace = read_trace(tr)
-    mism = trace_check(ctx, "Trace_OrderBy", tr, timeout=6000)
-    bad = set()
-
     def st(t):
         return "-" if t.get("k") == "unbound" else show_term(t).replace("http://www.w3.org/2001/XMLSchema#", "xsd:")
-    for line, fields in mism:
-        e = trace[line - 1]
-        bad.add(line)
-        code, idx = fields[0], int(fields[1]) if len(fields) > 1 else 0
-        if e["ev"] == "OrderBy":
-            key = "%s/%s" % (code, "+".join("DESC" if k["desc"] else "ASC" for k in e["keys"]))
-            out = e["outs"][idx - 1] if idx else (e["outs"][0] if e["outs"] else [])
-            detail = "%s keys=%s output=%s %s" % (code, e["keys"], [[st(c) for c in r] for r in out][:8], e["msg"])
-        else:
-            key, detail = "panic", "panic: %s" % e.get("msg")
-        ctx.violations.append({"key": key, "detail": detail, "event": e, "trace": tr, "line": line})
-    ctx.traces_validated += len(trace) - len(bad)
-    runs = 0
-    for e in trace:
-        if e["ev"] == "OrderBy":
-            ctx.distinct.add(h([e["rows"], e["keys"]]))
-            runs += len(e["outs"])
-    ctx.evaluations = runs
-    ctx.samples += [{"keys": e["keys"], "rows": [[st(c) for c in r] for r in e["rows"]], "first_output": [[st(c) for c in r] for r in e["outs"][0]]} for e in trace[3:5] if e["ev"] == "OrderBy" and e["outs"]]
+    runs = [0]
+
+    def handle(trace, mism, part):
+        bad = set()
+        for line, fields in mism:
+            e = trace[line - 1]
+            bad.add(line)
+            code, idx = fields[0], int(fields[1]) if len(fields) > 1 else 0
+            if e["ev"] == "OrderBy":
+                key = "%s/%s" % (code, "+".join("DESC" if k["desc"] else "ASC" for k in e["keys"]))
+                out = e["outs"][idx - 1] if idx else (e["outs"][0] if e["outs"] else [])
+                detail = "%s keys=%s output=%s %s" % (code, e["keys"], [[st(c) for c in r] for r in out][:8], e["msg"])
+            else:
+                key, detail = "panic", "panic: %s" % e.get("msg")
+            ctx.violations.append({"key": key, "detail": detail, "event": e, "trace": part, "line": line})
+        ctx.traces_validated += len(trace) - len(bad)
+        for e in trace:
+            if e["ev"] == "OrderBy":
+                ctx.distinct.add(h([e["rows"], e["keys"]]))
+                runs[0] += len(e["outs"])
+        if not ctx.samples:
+            ctx.samples += [{"keys": e["keys"], "rows": [[st(c) for c in r] for r in e["rows"]], "first_output": [[st(c) for c in r] for r in e["outs"][0]]} for e in trace[3:5] if e["ev"] == "OrderBy" and e["outs"]]
+    chunked_validate(ctx, "Trace_OrderBy", tr, handle)
+    ctx.evaluations = runs[0]
     mc.join()
-    ctx.rule = ("%d multisets: 2-4 rows (every permutation of the input rows is run) or 30-90 rows (4 random permutations), values from a 39-value universe (every numeric XSD type incl. derived integer types with facets, NaN, +-INF, -0.0, "
-                "a 21-digit decimal, ill-typed literals, unknown datatype, plain/tagged strings, booleans, dateTimes, IRIs, blank nodes, unbound), one or two ASC/DESC keys. TLC checks permutation, no inversion of a pair that SPARQL's '<' "
+    ctx.rule = ("%d multisets: 2-4 rows (every permutation of the input rows is run) or 30-90 rows (4 random permutations), values from a 61-value universe (every numeric XSD type incl. derived and unsigned integer types with facets, integers and decimals closer than a binary64 can tell, NaN, +-INF, -0.0, "
+                "a 21-digit decimal, ill-typed literals, unknown datatype, plain/tagged strings, booleans, dateTimes with Z / other offsets / no timezone / impossible dates, IRIs, blank nodes, unbound), one or two ASC/DESC keys; half as many multisets of 3-4 rows drawn from ONE value class (dateTimes; numerics at the limits of the machine types). TLC checks permutation, no inversion of a pair that SPARQL's '<' "
                 "or the kind rank orders (Xsd.tla exact decimal arithmetic), later keys breaking ties of same terms, and that ONE total preorder explains all outputs of a batch. "
                 "A further %d multisets of 3-4 rows mix stored values with integers computed by BIND(?x - B AS ?v) from stored x = v + B (B beyond 64 bits), a third of them sorted on the key expression ?v + 0. evaluations = ORDER BY runs" % (n, n // 2))
     ctx.assumptions += ["(v + B) - B = v for xsd:integer: the judge is given v as the key of a computed row"]
